@@ -1,7 +1,7 @@
 use noodles_bcf as bcf;
 use noodles_bgzf as bgzf;
 use noodles_vcf as vcf;
-use tokio::io::{self, AsyncWrite, BufWriter};
+use tokio::io::{self, AsyncWrite, AsyncWriteExt, BufWriter};
 
 pub(super) enum Inner<W>
 where
@@ -36,6 +36,15 @@ where
             Self::BcfRaw(writer) => writer.write_variant_record(header, record).await,
             Self::Vcf(writer) => writer.write_variant_record(header, record).await,
             Self::VcfGz(writer) => writer.write_variant_record(header, record).await,
+        }
+    }
+
+    pub(super) async fn shutdown(&mut self) -> io::Result<()> {
+        match self {
+            Self::Bcf(writer) => writer.get_mut().shutdown().await,
+            Self::BcfRaw(writer) => writer.get_mut().shutdown().await,
+            Self::Vcf(writer) => writer.shutdown().await,
+            Self::VcfGz(writer) => writer.shutdown().await,
         }
     }
 }
